@@ -99,7 +99,8 @@ def scripts_for(tier, seed):
         n = rng.randint(1, 50)
         ps = [[rng.choice(ids), k + 1] for k in range(n)]
         css.append({"tid": 84000000 + i, "pairs": ps, "how": rng.choice(cs.segmentations(n, rng, 3)),
-                    "store_ids": [x for x in cs.FAR if rng.random() < 0.4], "take": rng.choice([-1, 0, 2]), "lend": rng.random() < 0.4})
+                    "store_ids": [x for x in cs.FAR if rng.random() < 0.4], "take": rng.choice([-1, 0, 2]), "lend": rng.random() < 0.4,
+                    "inexact": rng.random() < 0.5, "dead": rng.choice([0, 3, 70]), "two": rng.random() < 0.6})
     out["cs"] = css
     return out
 
